@@ -562,7 +562,7 @@ fn main() {
         &a,
     ));
     let rt = epkit::runtime(8);
-    let n_cases: u64 = a.pick(60, 1600);
+    let n_cases: u64 = a.pick(60, 1400);
     let per_lane: usize = a.pick(6, 8);
     let par: usize = a.pick(6, 12);
     rt.block_on(async {
@@ -593,7 +593,7 @@ fn main() {
                     rep.inconclusive("case-task-panicked");
                 }
             }
-            rep.require("dials.answered_by_handler", a.pick(60, 1000));
+            rep.require("dials.answered_by_handler", a.pick(60, 1400));
             rep.require("dials.several_common_alpns", a.pick(10, 200));
             rep.require("filter.retry_then_validated_accept", a.pick(10, 200));
             rep.require("dials.refused_by_filter_no_handler.reject", a.pick(10, 200));
